@@ -117,6 +117,11 @@ def fixed_corpus(u):
     invalid_defs(u, add)
     poison_defs(u, add)
     add('nocopy', Struct('NoCopyNest', [Field(1, ('ptr', ('struct', 'NoCopy')), 'optional'), Field(2, ('list', ('ptr', ('struct', 'NoCopy'))))]))
+    # nocopy fields with InitDefault values: a field the message omits keeps its default and views nothing
+    add('nocopy', Struct('NoCopyDef', [Field(1, ('string',), 'optional', nocopy=True), Field(2, ('binary',), 'optional', nocopy=True),
+                                       Field(3, ('i32',), 'optional')],
+                         init={'F1': ('b', b'dflt-s'), 'F2': ('b', b'dflt-b'), 'F3': ('s', 4)}))
+    add('nocopy', Struct('NoCopyDefNest', [Field(1, ('struct', 'NoCopyDef')), Field(2, ('ptr', ('struct', 'NoCopyDef')), 'optional')]))
     return groups
 
 
